@@ -466,6 +466,75 @@ def hull_contains(hull, pt):
 
 
 # ----------------------------------------------------------------------------------------
+# exact knot insertion (Boehm) - a reference *algorithm*, validated against the definition in
+# self_test(); used as a cheap exact state oracle for insertion/removal histories
+# ----------------------------------------------------------------------------------------
+
+def _insert_row(p, U, row, u):
+    k = find_span(p, U, u)
+    s = multiplicity(U, u)
+    n = len(row)
+    out = []
+    for i in range(n + 1):
+        if i <= k - p:
+            out.append(row[i])
+        elif i >= k - s + 1:
+            out.append(row[i - 1])
+        else:
+            a = (u - U[i]) / (U[i + p] - U[i])
+            out.append(tuple(a * x + (1 - a) * y for x, y in zip(row[i], row[i - 1])))
+    return out
+
+
+def insert_knot_exact(d, direction, u, r=1):
+    """exact definition after inserting u r times in `direction` (0,1,2)"""
+    import itertools
+    u = fr(u)
+    for _ in range(r):
+        p = d['degrees'][direction]
+        U = d['kvs'][direction]
+        sizes = list(d['sizes'])
+        k = find_span(p, U, u)
+        newU = U[:k + 1] + (u,) + U[k + 1:]
+        new_sizes = list(sizes)
+        new_sizes[direction] += 1
+        total = 1
+        for x in new_sizes:
+            total *= x
+        newP = [None] * total
+        others = [range(sizes[a]) for a in range(len(sizes)) if a != direction]
+        for rest in itertools.product(*others):
+            def full(i):
+                idx = list(rest)
+                idx.insert(direction, i)
+                return idx
+            row = [d['P'][flat_index(sizes, full(i))] for i in range(sizes[direction])]
+            new_row = _insert_row(p, U, row, u)
+            for i, pt in enumerate(new_row):
+                newP[flat_index(new_sizes, full(i))] = pt
+        kvs = list(d['kvs'])
+        kvs[direction] = newU
+        d = dict(degrees=d['degrees'], kvs=tuple(kvs), sizes=tuple(new_sizes), P=newP, rational=d['rational'])
+    return d
+
+
+def refine_to(d, target_kvs):
+    """exact definition of d on the finer knot vectors target_kvs (each a super-multiset of d's); None if not finer"""
+    for a, tk in enumerate(target_kvs):
+        tk = [fr(x) for x in tk]
+        cur = list(d['kvs'][a])
+        for val in sorted(set(tk)):
+            need = sum(1 for x in tk if x == val) - sum(1 for x in cur if x == val)
+            if need < 0:
+                return None
+            if need > 0:
+                d = insert_knot_exact(d, a, val, need)
+        if list(d['kvs'][a]) != sorted(tk):
+            return None
+    return d
+
+
+# ----------------------------------------------------------------------------------------
 # self test (run by setup and by every check start, cheap)
 # ----------------------------------------------------------------------------------------
 
@@ -501,6 +570,15 @@ def self_test():
     assert matmul([[2, 1], [1, 3]], X) == [[1, 0], [0, 1]]
     assert bezier_point(bezier_elevate([(F(0), F(0)), (F(1), F(2)), (F(3), F(1))], 2), F(1, 3)) == \
         bezier_point([(F(0), F(0)), (F(1), F(2)), (F(3), F(1))], F(1, 3))
+    # exact knot insertion agrees with the definition (surface, both directions, repeated knot)
+    sd = shape_def([2, 1], [[0, 0, 0, F(1, 2), 1, 1, 1], [0, 0, F(1, 4), 1, 1]], [4, 3],
+                   [(7 * i + 2 * j * j, i * i - 3 * j, 1 + ((2 * i + 3 * j) % 4)) for i in range(4) for j in range(3)], True)
+    sd2 = insert_knot_exact(insert_knot_exact(sd, 0, F(1, 2), 1), 1, F(1, 3), 1)
+    assert sd2['sizes'] == (5, 4)
+    for uu in (F(0), F(1, 4), F(1, 2), F(5, 7), F(1)):
+        for vv in (F(0), F(1, 3), F(9, 10), F(1)):
+            assert eval_point(sd, (uu, vv)) == eval_point(sd2, (uu, vv))
+    assert refine_to(sd, sd2['kvs'])['P'] == sd2['P']
     sq = [(0, 0), (2, 0), (2, 2), (0, 2)]
     assert winding_number((1, 1), sq) == 1 and point_in_polygon_crossing((1, 1), sq)
     assert winding_number((3, 1), sq) == 0 and not point_in_polygon_crossing((3, 1), sq)
